@@ -216,6 +216,9 @@ Definition wf_inv (s : sinv) : bool :=
 Definition view_opt_area (dated : bool) (o : option sarea) : area_st :=
   match o with Some a => Parsed (view_area dated a) | None => Absent end.
 
+Definition view_multi (l : list srec) : mr_st :=
+  match l with [] => MAbsent | _ => MParsed (view_recs l) end.
+
 Definition view_inventory (s : sinv) : inventory :=
   let n1 := (8 + length (s_internal s))%nat in
   let n2 := (n1 + length (enc_opt_area false (s_chassis s)))%nat in
@@ -228,4 +231,4 @@ Definition view_inventory (s : sinv) : inventory :=
                   (if nonempty (s_multi s) then N.of_nat n4 else 0))
         (view_opt_area false (s_chassis s)) (view_opt_area true (s_board s))
         (view_opt_area false (s_product s))
-        (match s_multi s with [] => MAbsent | l => MParsed (view_recs l) end).
+        (view_multi (s_multi s)).
